@@ -1,5 +1,6 @@
 import PybropsModel.J
 import PybropsModel.Model.Pheno
+import PybropsModel.Model.PhenoSpec
 open Lean
 
 namespace Drv.C14
@@ -20,10 +21,11 @@ def draw (j : Json) : J.R (Draw Rat) :=
 def recIn (j : Json) : J.R R := do
   let taxa ← J.field j "taxa" J.str
   let grp ← J.fieldOpt j "grp" J.int
-  let env ← J.fieldD j "env" J.nat 0
-  let rep ← J.fieldD j "rep" J.nat 0
+  -- (a negative label can never name a cell: it is read as 0, which no cell carries)
+  let env ← J.fieldD j "env" J.int 0
+  let rep ← J.fieldD j "rep" J.int 0
   let vals ← J.field j "vals" (J.list J.rat)
-  pure { taxa, grp, env, rep, vals }
+  pure { taxa, grp, env := env.toNat, rep := rep.toNat, vals }
 
 def recOut (r : R) : Json :=
   J.obj [("taxa", J.ofStr r.taxa), ("grp", J.ofOpt J.ofInt r.grp), ("env", J.ofNat r.env),
@@ -33,17 +35,6 @@ def nrepIn (j : Json) : J.R (Nat ⊕ List Nat) :=
   match j with
   | .arr _ => Sum.inr <$> J.list J.nat j
   | _ => Sum.inl <$> J.nat j
-
-/-! ### tolerant comparison over `Rat` (the implementation computes in binary64) -/
-def rabs (q : Rat) : Rat := if q < 0 then -q else q
-def rmax (a b : Rat) : Rat := if a < b then b else a
-def close (a b : Rat) : Bool :=
-  let d := rabs (a - b)
-  d ≤ (1 : Rat) / 1000000000000 || d ≤ ((1 : Rat) / 1000000000) * rmax (rabs a) (rabs b)
-
-/-- multiset equality of two lists (quadratic; the tables are small) -/
-def msetEq {β} [BEq β] (a b : List β) : Bool :=
-  a.length == b.length && a.all (fun x => a.count x == b.count x)
 
 /-! ### model ops -/
 
@@ -102,41 +93,7 @@ def opMeanBV : J.Op := fun j => do
     pure (J.obj [("taxa", J.ofList J.ofStr taxa), ("grp", J.ofOpt (J.ofList J.ofInt) grp),
                  ("rows", J.ofList (J.ofList J.ofRat) rows)])
 
-/-! ### Spec oracles, evaluated on the IMPLEMENTATION's outputs -/
-
-/-- Spec of the field-trial clause.  `rows` = the data frame returned by the real `phenotype()`.
-    * exactly one record per (taxon, environment, replicate), each carrying that taxon's labels:
-      the multiset of `(taxa, taxa_grp, env, rep)` over the rows equals the multiset of
-      `(taxa[i], taxa_grp[i], e+1, r+1)` over all `i < n, e < nenv, r < nrep[e]`;
-      when the population carries no names, instead: every `(env, rep)` cell holds `n` rows with pairwise
-      distinct names, the same names in every cell;
-    * zero noise: every record equals the true genotypic value of its taxon (exactly): the multiset of
-      `(labels, env, rep, vals)` equals the one built from `gv`; without names: per cell the multiset of
-      value rows equals `gv`'s and a name is paired with one value row throughout. -/
-def specPheno (gv : List (List Rat)) (taxa : Option (List String)) (grp : Option (List Int))
-    (nrep : List Nat) (zeroNoise : Bool) (rows : List R) : Bool × String :=
-  let n := gv.length
-  let cells : List (Nat × Nat) := nrep.zipIdx.flatMap (fun ke => (List.range ke.1).map (fun r => (ke.2 + 1, r + 1)))
-  let count := rows.length == n * cells.length
-  let grpAt (i : Nat) : Option Int := grp.bind (·[i]?)
-  match taxa with
-  | some tx =>
-    let expect : List (String × Option Int × Nat × Nat × List Rat) :=
-      cells.flatMap (fun c => (List.range n).map (fun i => (tx.getD i "", grpAt i, c.1, c.2, gv.getD i [])))
-    let keys := msetEq (rows.map (fun r => (r.taxa, r.grp, r.env, r.rep)))
-                       (expect.map (fun x => (x.1, x.2.1, x.2.2.1, x.2.2.2.1)))
-    let vals := !zeroNoise || msetEq (rows.map (fun r => (r.taxa, r.grp, r.env, r.rep, r.vals))) expect
-    (count && keys && vals, s!"count={count} one_record_per_key_with_labels={keys} zero_noise_exact={vals}")
-  | none =>
-    let cell (c : Nat × Nat) := rows.filter (fun r => r.env == c.1 && r.rep == c.2)
-    let names0 := (cell (1, 1)).map (·.taxa)
-    let keys := cells.all (fun c =>
-      let rs := cell c
-      rs.length == n && (rs.map (·.taxa)).eraseDups.length == n && msetEq (rs.map (·.taxa)) names0
-        && msetEq (rs.map (·.grp)) ((List.range n).map grpAt))
-    let vals := !zeroNoise || (cells.all (fun c => msetEq ((cell c).map (·.vals)) gv)
-        && (rows.map (fun r => (r.taxa, r.vals))).eraseDups.length == n)
-    (count && keys && vals, s!"count={count} one_record_per_key_distinct_names={keys} zero_noise_exact={vals}")
+/-! ### Spec oracles (defined in Model/PhenoSpec.lean), evaluated on the IMPLEMENTATION's outputs -/
 
 def opSpecPheno : J.Op := fun j => do
   let gv ← J.field j "gv" (J.mat J.rat)
@@ -145,38 +102,21 @@ def opSpecPheno : J.Op := fun j => do
   let nrep ← J.field j "nrep" (J.list J.nat)
   let zero ← J.field j "zeroNoise" J.bool
   let rows ← J.field j "rows" (J.list recIn)
-  let (ok, msg) := specPheno gv taxa grp nrep zero rows
-  pure (J.obj [("ok", J.ofBool ok), ("detail", J.ofStr msg)])
+  let count := specPhenoCount gv.length nrep rows
+  let (keys, vals) := match taxa with
+    | some tx => (specPhenoKeys gv (labels tx grp) nrep rows, !zero || specPhenoVals gv (labels tx grp) nrep rows)
+    | none => (specPhenoKeysUnnamed gv.length grp nrep rows, !zero || specPhenoValsUnnamed gv nrep rows)
+  pure (J.obj [("ok", J.ofBool (specPheno gv taxa grp nrep zero rows)),
+    ("detail", J.ofStr s!"count={count} one_record_per_key_with_labels={keys} zero_noise_exact={vals}")])
 
-/-- Spec of the heritability clause on the implementation's numbers: the error variance is a variance (≥ 0) and
-    `var_A / (var_A + var_err) = h2` for every trait with `var_A > 0` -/
+/-- Spec of the heritability clause on the implementation's `var_err` (and the population's genetic variance) -/
 def opSpecH2 : J.Op := fun j => do
   let h2 ← J.field j "h2" (J.list J.rat)
   let varA ← J.field j "varA" (J.list J.rat)
   let varE ← J.field j "varErr" (J.list J.rat)
   let lens := h2.length == varA.length && varA.length == varE.length
-  let each := (List.zip h2 (List.zip varA varE)).all (fun x =>
-    let h := x.1; let a := x.2.1; let e := x.2.2
-    decide (0 ≤ e) && (!(decide (0 < a)) || close (heritability a e) h))
-  pure (J.obj [("ok", J.ofBool (lens && each)), ("detail", J.ofStr s!"lengths={lens} ratio_eq_target={each}")])
-
-/-- Spec of the breeding-value clause.  `recs` = the phenotype table handed to `estimate`, `out*` = the matrix it
-    returned (`unscale()`d; NaN = null).  Taxon = name:
-    * labels: `out.taxa = gtobj.taxa`, `out.taxa_grp = gtobj.taxa_grp`, `out.trait = trait_cols`;
-    * a genotype taxon with at least one record: every trait equals the arithmetic mean over its records;
-    * a genotype taxon without record: missing in every trait. -/
-def specMeanBV (recs : List R) (t : Nat) (gtTaxa : List String) (gtGrp : Option (List Int)) (traits : List String)
-    (outTaxa : List String) (outGrp : Option (List Int)) (outTrait : List String)
-    (outRows : List (List (Option Rat))) : Bool × String :=
-  let labelsOk := outTaxa == gtTaxa && outGrp == gtGrp && outTrait == traits
-  let shape := outRows.length == gtTaxa.length && outRows.all (fun r => r.length == t)
-  let rowsOk := (List.zip gtTaxa outRows).all (fun nr =>
-    let mine := (recs.filter (fun r => r.taxa == nr.1)).map (·.vals)
-    if mine.isEmpty then nr.2.all Option.isNone
-    else
-      let want := colMeans t mine
-      (List.zip nr.2 want).all (fun ow => match ow.1 with | some o => close o ow.2 | none => false))
-  (labelsOk && shape && rowsOk, s!"labels_aligned={labelsOk} shape={shape} mean_or_missing={rowsOk}")
+  pure (J.obj [("ok", J.ofBool (specH2 h2 varA varE)),
+    ("detail", J.ofStr s!"lengths={lens} error_variance_fixes_target={specH2 h2 varA varE}")])
 
 def opSpecMeanBV : J.Op := fun j => do
   let recs ← J.field j "recs" (J.list recIn)
@@ -188,21 +128,20 @@ def opSpecMeanBV : J.Op := fun j => do
   let outGrp ← J.fieldOpt j "outGrp" (J.list J.int)
   let outTrait ← J.field j "outTrait" (J.list J.str)
   let outRows ← J.field j "outRows" (J.list (J.list (J.opt J.rat)))
-  let (ok, msg) := specMeanBV recs t gtTaxa gtGrp traits outTaxa outGrp outTrait outRows
-  pure (J.obj [("ok", J.ofBool ok), ("detail", J.ofStr msg)])
+  let labelsOk := outTaxa == gtTaxa && outGrp == gtGrp && outTrait == traits
+  let rowsOk := specMeanRows recs t gtTaxa outRows
+  pure (J.obj [("ok", J.ofBool (specMeanBV recs t gtTaxa gtGrp traits outTaxa outGrp outTrait outRows)),
+    ("detail", J.ofStr s!"labels_aligned={labelsOk} mean_or_missing={rowsOk}")])
 
-/-- Spec of the estimate without genotype matrix: one row per distinct taxon name, each the mean over its records -/
 def opSpecMeanBVNoGt : J.Op := fun j => do
   let recs ← J.field j "recs" (J.list recIn)
   let t ← J.field j "ntrait" J.nat
   let outTaxa ← J.field j "outTaxa" (J.list J.str)
   let outRows ← J.field j "outRows" (J.list (J.list (J.opt J.rat)))
-  let names := (recs.map (·.taxa)).eraseDups
-  let cover := msetEq outTaxa names
-  let rowsOk := outRows.length == outTaxa.length && (List.zip outTaxa outRows).all (fun nr =>
-    let want := colMeans t ((recs.filter (fun r => r.taxa == nr.1)).map (·.vals))
-    nr.2.length == t && (List.zip nr.2 want).all (fun ow => match ow.1 with | some o => close o ow.2 | none => false))
-  pure (J.obj [("ok", J.ofBool (cover && rowsOk)), ("detail", J.ofStr s!"one_row_per_name={cover} mean={rowsOk}")])
+  let cover := msetEq outTaxa (recs.map (·.taxa)).eraseDups
+  let rowsOk := specMeanRows recs t outTaxa outRows
+  pure (J.obj [("ok", J.ofBool (specMeanBVNoGt recs t outTaxa outRows)),
+    ("detail", J.ofStr s!"one_row_per_name={cover} mean={rowsOk}")])
 
 /-! ### tables with missing values (NaN = null) -/
 
@@ -228,28 +167,6 @@ def opMeanBVNan : J.Op := fun j => do
     let (taxa, rows) := meanBVNanNoGt keyLe useGrp t recs
     pure (J.obj [("taxa", J.ofList J.ofStr taxa), ("rows", J.ofList (J.ofList (J.ofOpt J.ofRat)) rows)])
 
-/-- Spec with NaN cells.  Taxon = name.  Labels aligned as before.  Per (genotype taxon, trait):
-    * no record of the taxon has a value (in particular: no record at all) ⇒ the entry is missing;
-    * every record of the taxon has a value ⇒ the entry is their arithmetic mean;
-    * some records lack the value ⇒ the property text does not say whether the mean skips them or is missing:
-      the entry must be the mean over the records that have a value, or missing (the correspondence pins it to pandas'
-      skip-NaN behaviour). -/
-def specMeanBVNan (recs : List RN) (t : Nat) (gtTaxa : List String) (outRows : List (List (Option Rat))) : Bool × String :=
-  let shape := outRows.length == gtTaxa.length && outRows.all (fun r => r.length == t)
-  let rowsOk := (List.zip gtTaxa outRows).all (fun nr =>
-    let mine := (recs.filter (fun r => r.taxa == nr.1)).map (·.vals)
-    (List.range t).all (fun j =>
-      let cells := mine.map (fun v => (v[j]?).join)
-      let present := cells.filterMap id
-      let out := (nr.2[j]?).join
-      if present.isEmpty then out.isNone
-      else
-        let m := mean present
-        match out with
-        | some o => close o m
-        | none => present.length != cells.length))
-  (shape && rowsOk, s!"shape={shape} skipnan_mean_or_missing={rowsOk}")
-
 def opSpecMeanBVNan : J.Op := fun j => do
   let recs ← J.field j "recs" (J.list recInNan)
   let t ← J.field j "ntrait" J.nat
@@ -261,24 +178,63 @@ def opSpecMeanBVNan : J.Op := fun j => do
   let outTrait ← J.field j "outTrait" (J.list J.str)
   let outRows ← J.field j "outRows" (J.list (J.list (J.opt J.rat)))
   let labelsOk := outTaxa == gtTaxa && outGrp == gtGrp && outTrait == traits
-  let (ok, msg) := specMeanBVNan recs t gtTaxa outRows
-  pure (J.obj [("ok", J.ofBool (labelsOk && ok)), ("detail", J.ofStr s!"labels_aligned={labelsOk} {msg}")])
+  let rowsOk := specMeanRowsNan recs t gtTaxa outRows
+  pure (J.obj [("ok", J.ofBool (specMeanBVNan recs t gtTaxa gtGrp traits outTaxa outGrp outTrait outRows)),
+    ("detail", J.ofStr s!"labels_aligned={labelsOk} skipnan_mean_or_missing={rowsOk}")])
 
-/-- without genotype matrix: one row per distinct taxon name, entries as above -/
 def opSpecMeanBVNanNoGt : J.Op := fun j => do
   let recs ← J.field j "recs" (J.list recInNan)
   let t ← J.field j "ntrait" J.nat
   let outTaxa ← J.field j "outTaxa" (J.list J.str)
   let outRows ← J.field j "outRows" (J.list (J.list (J.opt J.rat)))
-  let names := (recs.map (·.taxa)).eraseDups
-  let cover := msetEq outTaxa names
-  let (ok, msg) := specMeanBVNan recs t outTaxa outRows
-  pure (J.obj [("ok", J.ofBool (cover && ok)), ("detail", J.ofStr s!"one_row_per_name={cover} {msg}")])
+  let cover := msetEq outTaxa (recs.map (·.taxa)).eraseDups
+  let rowsOk := specMeanRowsNan recs t outTaxa outRows
+  pure (J.obj [("ok", J.ofBool (specMeanBVNanNoGt recs t outTaxa outRows)),
+    ("detail", J.ofStr s!"one_row_per_name={cover} skipnan_mean_or_missing={rowsOk}")])
+
+/-! ### the configuration object: constructor + setter history, layout, generator-call plan -/
+
+def varArgIn (j : Json) : J.R (VarArg Rat) :=
+  match j with
+  | .null => pure .none
+  | .arr _ => VarArg.array <$> J.list J.rat j
+  | _ => VarArg.scalar <$> J.rat j
+
+def cfgOpIn (j : Json) : J.R (CfgOp Rat) := do
+  let attr ← J.field j "attr" J.str
+  match attr with
+  | "nenv" => CfgOp.setNenv <$> J.field j "value" J.nat
+  | "nrep" => CfgOp.setNrep <$> J.field j "value" nrepIn
+  | "var_env" => CfgOp.setVarEnv <$> J.fieldD j "value" varArgIn .none
+  | "var_rep" => CfgOp.setVarRep <$> J.fieldD j "value" varArgIn .none
+  | "var_err" => CfgOp.setVarErr <$> J.fieldD j "value" varArgIn .none
+  | _ => J.fail s!"cfg op: unknown attribute {attr}"
+
+/-- constructor arguments + the setter calls made so far ⇒ stored attributes, the layout `phenotype()` walks through and
+    the sequence of `multivariate_normal` calls it makes for `ntaxa` taxa -/
+def opConfig : J.Op := fun j => do
+  let ntrait ← J.field j "ntrait" J.nat
+  let ntaxa ← J.field j "ntaxa" J.nat
+  let nenv ← J.field j "nenv" J.nat
+  let nrep ← J.field j "nrep" nrepIn
+  let ve ← J.fieldD j "var_env" varArgIn .none
+  let vr ← J.fieldD j "var_rep" varArgIn .none
+  let vx ← J.fieldD j "var_err" varArgIn .none
+  let ops ← J.fieldD j "ops" (J.list cfgOpIn) []
+  match (cfgInit ntrait nenv nrep ve vr vx).bind (fun c => cfgRun ntrait c ops) with
+  | none => pure (J.obj [("rejected", J.ofBool true)])
+  | some c =>
+    pure (J.obj [("nenv", J.ofNat c.nenv), ("nrep", J.ofList J.ofNat c.nrep),
+      ("var_env", J.ofList J.ofRat c.varEnv), ("var_rep", J.ofList J.ofRat c.varRep), ("var_err", J.ofList J.ofRat c.varErr),
+      ("layout", J.ofList J.ofNat c.layout),
+      ("plan", J.ofList (fun (d : DrawCall Rat) =>
+        J.obj [("cov", J.ofList J.ofRat d.covDiag), ("size", J.ofOpt J.ofNat d.size)]) (drawPlan c ntaxa))])
 
 def ops : List (String × J.Op) :=
   [("c14.phenotype", opPhenotype), ("c14.truepheno", opTruePheno), ("c14.h2", opH2), ("c14.meanbv", opMeanBV),
    ("c14.spec_pheno", opSpecPheno), ("c14.spec_h2", opSpecH2), ("c14.spec_meanbv", opSpecMeanBV),
    ("c14.spec_meanbv_nogt", opSpecMeanBVNoGt), ("c14.meanbv_nan", opMeanBVNan),
-   ("c14.spec_meanbv_nan", opSpecMeanBVNan), ("c14.spec_meanbv_nan_nogt", opSpecMeanBVNanNoGt)]
+   ("c14.spec_meanbv_nan", opSpecMeanBVNan), ("c14.spec_meanbv_nan_nogt", opSpecMeanBVNanNoGt),
+   ("c14.config", opConfig)]
 
 end Drv.C14
